@@ -1,4 +1,5 @@
 import Typegen.SerdeAttrs
+import Typegen.Validator
 /-! C15: byte-level model of Rust string slicing.  A `&str` is a `List Char`; indices are *byte* offsets into
     its UTF-8 encoding; `&s[i..]`, `&s[..j]`, `&s[i..j]` panic (here: `none`) when an index is past the end or
     not on a character boundary.  `findB` is `str::find` (byte offset of the first match). -/
@@ -274,4 +275,177 @@ theorem firstQuoted_trim (s : Str) : firstQuoted (trimStartWs s) = firstQuoted s
       cases findCh '"' cs <;> simp
     · rfl
 
+end B
+
+/-! ## `parse_message_from_content` at byte level -/
+namespace B
+open A SA VP
+
+/-- the `for (i, ch) in rest.char_indices()` loop of `parse_message_from_content`: byte offset of the closing quote -/
+def scanB (q : Char) : Bool → Str → Nat → Option Nat
+  | _, [], _ => none
+  | true, c :: cs, i => scanB q false cs (i + c.utf8Size)
+  | false, c :: cs, i =>
+    if c = '\\' then scanB q true cs (i + c.utf8Size)
+    else if c = q then some i
+    else scanB q false cs (i + c.utf8Size)
+
+/-- the loop before fix f278ab8: `chars().enumerate()` counts characters, the slice takes bytes -/
+def scanOldB (q : Char) : Bool → Str → Nat → Option Nat
+  | _, [], _ => none
+  | true, _ :: cs, i => scanOldB q false cs (i + 1)
+  | false, c :: cs, i =>
+    if c = '\\' then scanOldB q true cs (i + 1)
+    else if c = q then some i
+    else scanOldB q false cs (i + 1)
+
+theorem scanB_eq (q : Char) : ∀ (e : Bool) (s : Str) (i : Nat),
+    scanB q e s i = (scanQuoted q e s).map fun pre => i + blen pre
+  | _, [], _ => by cases ‹Bool› <;> simp [scanB, scanQuoted]
+  | true, c :: cs, i => by
+    simp only [scanB, scanQuoted, scanB_eq q false cs]
+    cases scanQuoted q false cs <;> simp; omega
+  | false, c :: cs, i => by
+    simp only [scanB, scanQuoted]
+    split
+    · rw [scanB_eq q true cs]; cases scanQuoted q true cs <;> simp; omega
+    · split
+      · simp
+      · rw [scanB_eq q false cs]; cases scanQuoted q false cs <;> simp; omega
+
+/-- what the scan returns is a prefix of the scanned text -/
+theorem scanQuoted_prefix (q : Char) : ∀ (e : Bool) (s pre : Str), scanQuoted q e s = some pre → ∃ k, k ≤ s.length ∧ pre = s.take k
+  | _, [], pre, h => by cases ‹Bool› <;> simp [scanQuoted] at h
+  | true, c :: cs, pre, h => by
+    simp only [scanQuoted] at h
+    cases hs : scanQuoted q false cs with
+    | none => simp [hs] at h
+    | some p =>
+      simp [hs] at h
+      obtain ⟨k, hk, rfl⟩ := scanQuoted_prefix q false cs p hs
+      exact ⟨k + 1, by simp; omega, by simp [← h]⟩
+  | false, c :: cs, pre, h => by
+    simp only [scanQuoted] at h
+    split at h
+    · cases hs : scanQuoted q true cs with
+      | none => simp [hs] at h
+      | some p =>
+        simp [hs] at h
+        obtain ⟨k, hk, rfl⟩ := scanQuoted_prefix q true cs p hs
+        exact ⟨k + 1, by simp; omega, by simp [← h]⟩
+    · split at h
+      · exact ⟨0, by simp, by simpa using h.symm⟩
+      · cases hs : scanQuoted q false cs with
+        | none => simp [hs] at h
+        | some p =>
+          simp [hs] at h
+          obtain ⟨k, hk, rfl⟩ := scanQuoted_prefix q false cs p hs
+          exact ⟨k + 1, by simp; omega, by simp [← h]⟩
+
+/-- `parse_message_from_content` with Rust's byte offsets; outer `none` = a slice panicked -/
+def parseMessageB (content : Str) : Option (Option Str) :=
+  match findB kwMessage content with
+  | none => some none
+  | some mp =>
+    match from? content mp with
+    | none => none
+    | some tail =>
+      match findB ['='] tail with
+      | none => some none
+      | some eq =>
+        match from? content (mp + eq + 1) with
+        | none => none
+        | some ae0 =>
+          match trimStartWs ae0 with
+          | [] => some none
+          | q :: rest0 =>
+            if q = '"' || q = '\'' then
+              match from? (q :: rest0) 1 with
+              | none => none
+              | some rest =>
+                match scanB q false rest 0 with
+                | none => some none
+                | some i => (to? rest i).map fun m => some (unescapeMsg m)
+            else some none
+
+theorem parseMessageB_refines (content : Str) : parseMessageB content = some (parseMessage content) := by
+  unfold parseMessageB parseMessage
+  cases hf : findB kwMessage content with
+  | none => simp [findB_none _ _ hf]
+  | some mp =>
+    obtain ⟨k, hk, hmp, hkle, _⟩ := findB_some _ _ _ hf
+    subst hmp
+    simp only [hk, from?_take content k hkle]
+    rw [findCh_eq]
+    cases he : findB ['='] (content.drop k) with
+    | none => simp [findB_none _ _ he]
+    | some eq =>
+      obtain ⟨e, hfe, heq, hele, hesw⟩ := findB_some _ _ _ he
+      subst heq
+      simp only [hfe]
+      -- content[mp + eq + 1 ..] = (content.drop k).drop (e + 1)
+      have h1 : blen (content.take k) + blen ((content.drop k).take e) + 1 = blen (content.take (k + e)) + blen ['='] := by
+        rw [blen_take_add]; rfl
+      have hsw' : startsWith (content.drop (k + e)) ['='] = true := by rw [← List.drop_drop]; exact hesw
+      have hke : k + e ≤ content.length := by simp at hele; omega
+      have hp := from?_past content ['='] (k + e) hke hsw'
+      simp only [List.length_singleton] at hp
+      rw [h1, hp.1]
+      have ed : List.drop (k + e + 1) content = List.drop (e + 1) (List.drop k content) := by
+        rw [List.drop_drop, Nat.add_assoc]
+      rw [ed]
+      simp only
+      cases ht : trimStartWs (List.drop (e + 1) (List.drop k content)) with
+      | nil => rfl
+      | cons q rest0 =>
+        simp only
+        by_cases hq : (q = '"' || q = '\'') = true
+        · simp only [hq, if_true]
+          have hq1 : q.utf8Size = 1 := by
+            simp only [Bool.or_eq_true, decide_eq_true_eq] at hq
+            rcases hq with rfl | rfl <;> decide
+          have hfrom : from? (q :: rest0) 1 = some rest0 := by
+            have := from?_take (q :: rest0) 1 (by simp)
+            simpa [hq1] using this
+          rw [hfrom]
+          simp only [scanB_eq]
+          cases hs : scanQuoted q false rest0 with
+          | none => rfl
+          | some pre =>
+            obtain ⟨j, hj, rfl⟩ := scanQuoted_prefix q false rest0 pre hs
+            simp [to?_take rest0 j hj]
+        · simp only [hq, Bool.false_eq_true, if_false]
+
+end B
+
+namespace B
+open A SA VP
+/-- the loop before fix f278ab8 inside the same function -/
+def parseMessageOldB (content : Str) : Option (Option Str) :=
+  match findB kwMessage content with
+  | none => some none
+  | some mp =>
+    match from? content mp with
+    | none => none
+    | some tail =>
+      match findB ['='] tail with
+      | none => some none
+      | some eq =>
+        match from? content (mp + eq + 1) with
+        | none => none
+        | some ae0 =>
+          match trimStartWs ae0 with
+          | [] => some none
+          | q :: rest0 =>
+            if q = '"' || q = '\'' then
+              match from? (q :: rest0) 1 with
+              | none => none
+              | some rest =>
+                match scanOldB q false rest 0 with
+                | none => some none
+                | some i => (to? rest i).map fun m => some (unescapeMsg m)
+            else some none
+
+example : parseMessageOldB cl!"min = 1 , message = \"é\"" = none := by decide +kernel
+example : parseMessageB cl!"min = 1 , message = \"é\"" = some (some cl!"é") := by decide +kernel
 end B
